@@ -44,6 +44,19 @@ type p01Gen struct {
 	usesVal    bool   // P01L: t.val() is called somewhere
 	valHit     bool   // P01L: some call of t.val() had a nil receiver
 	class      string // suffix of the assertion ids for an input class with a recorded known finding
+	// P10: explicit annotations (0 none, 1 nilable, 2 nonnil) on the callee's parameter, its result and the package-level pointer
+	annA, annR, annG int
+	annSpelling      int // 0: names, 1: `param 0`
+	gDeclLine        int
+	flowIn           []int // lines where nil may flow into a nonnil-annotated site (a diagnostic may sit there)
+	calleeFirst      int   // first and last line of the callee (for nonnil(result 0): the return statements are flow-in points)
+	calleeLast       int
+}
+
+// gval is what a read of the package-level pointer yields: its run-time value. (For a nilable-annotated variable the
+// value at function entry is arbitrary - see Harness_P10 - and a local store is then tracked like any other.)
+func (g *p01Gen) gval() bool {
+	return g.g
 }
 
 func (g *p01Gen) emit(s string) int {
@@ -84,15 +97,62 @@ func (g *p01Gen) simpleStmt(tag, ind string, cond bool) {
 		g.y = ndIteBool(cond, g.x, g.y)
 	case 5:
 		g.emit(ind + "x = g")
-		g.x = ndIteBool(cond, g.g, g.x)
+		g.x = ndIteBool(cond, g.gval(), g.x)
 	case 6:
-		g.emit(ind + "g = x")
+		l := g.emit(ind + "g = x")
+		if g.annG == 2 {
+			// nil stored into a nonnil-annotated variable
+			g.panics = ndOr(g.panics, ndAnd(ndAnd(g.live, cond), g.x))
+			g.flowIn = append(g.flowIn, l)
+		}
 		g.g = ndIteBool(cond, g.x, g.g)
 	case 7:
 		g.deref(g.emit(ind+"_ = *y"), g.y, cond)
 	default:
-		g.deref(g.emit(ind+"_ = *g"), g.g, cond)
+		g.deref(g.emit(ind+"_ = *g"), g.gval(), cond)
 	}
+}
+
+// call emits `x = callee(y)` (choosing the callee at the first call) and applies its semantics.
+func (g *p01Gen) call() {
+	if g.calleeKind < 0 {
+		g.calleeKind = ndChoice("callee", 7)
+		if g.calleeKind == 5 {
+			g.calleeFlag = ndBool("calleeflag")
+		}
+	}
+	callLine := g.emit("\tx = callee(y)")
+	arg := g.y
+	switch g.annA {
+	case 1:
+		arg = ndBool("param_annotated_nilable") // inside the callee the parameter is a nil source of its own
+	case 2:
+		g.panics = ndOr(g.panics, ndAnd(g.live, g.y)) // nil passed to a nonnil-annotated parameter
+		g.flowIn = append(g.flowIn, callLine)
+	}
+	var ret bool
+	switch g.calleeKind {
+	case 0:
+		ret = arg
+	case 1:
+		ret = true
+	case 2, 4:
+		ret = false
+	case 3:
+		g.panics = ndOr(g.panics, ndAnd(g.live, arg))
+		ret = arg
+	case 5:
+		ret = ndIteBool(g.calleeFlag, true, arg)
+	default:
+		ret = g.gval()
+	}
+	switch g.annR {
+	case 1:
+		ret = ndBool("result_annotated_nilable") // the annotation makes every call a nil source
+	case 2:
+		g.panics = ndOr(g.panics, ndAnd(g.live, ret)) // nil returned from a nonnil-annotated result
+	}
+	g.x = ret
 }
 
 func (g *p01Gen) stmt(compound int) {
@@ -115,28 +175,7 @@ func (g *p01Gen) stmt(compound int) {
 		g.emit("\t}")
 		g.x = false
 	case 4:
-		if g.calleeKind < 0 {
-			g.calleeKind = ndChoice("callee", 7)
-			if g.calleeKind == 5 {
-				g.calleeFlag = ndBool("calleeflag")
-			}
-		}
-		g.emit("\tx = callee(y)")
-		switch g.calleeKind {
-		case 0:
-			g.x = g.y
-		case 1:
-			g.x = true
-		case 2, 4:
-			g.x = false
-		case 3:
-			g.panics = ndOr(g.panics, ndAnd(g.live, g.y))
-			g.x = g.y
-		case 5:
-			g.x = ndIteBool(g.calleeFlag, true, g.y)
-		default:
-			g.x = g.g
-		}
+		g.call()
 	case 5:
 		f, v := g.flag()
 		g.emit("\tif " + f + " {")
@@ -156,7 +195,27 @@ func (g *p01Gen) stmt(compound int) {
 func (g *p01Gen) emitCallee() int {
 	calleeDeref := 0
 	g.emit("")
-	g.emit("func callee(a *int) *int {")
+	var anns []string
+	pname := "a"
+	if g.annSpelling == 1 {
+		pname = "param 0"
+	}
+	switch g.annA {
+	case 1:
+		anns = append(anns, "nilable("+pname+")")
+	case 2:
+		anns = append(anns, "nonnil("+pname+")")
+	}
+	switch g.annR {
+	case 1:
+		anns = append(anns, "nilable(result 0)")
+	case 2:
+		anns = append(anns, "nonnil(result 0)")
+	}
+	if len(anns) > 0 {
+		g.emit("// " + strings.Join(anns, ", "))
+	}
+	g.calleeFirst = g.emit("func callee(a *int) *int {")
 	switch g.calleeKind {
 	case 0:
 		g.emit("\treturn a")
@@ -180,7 +239,7 @@ func (g *p01Gen) emitCallee() int {
 	default:
 		g.emit("\treturn g")
 	}
-	g.emit("}")
+	g.calleeLast = g.emit("}")
 	return calleeDeref
 }
 
@@ -262,6 +321,7 @@ func Harness_P01() {
 
 // judge runs the pipeline on the program and states the obligations P01.A1-A4.
 func (g *p01Gen) judge(src string, calleeDeref, valLine int) {
+	nonnilAnn := g.annA == 2 || g.annR == 2 || g.annG == 2
 	r := pipeAnalyse(src)
 	ndObserveInt("diagnostics", len(r.diags))
 	internal := r.panicked != "" || len(r.funcErrs) > 0
@@ -281,7 +341,8 @@ func (g *p01Gen) judge(src string, calleeDeref, valLine int) {
 	if g.usesVal {
 		nUnchecked++
 	}
-	if nUnchecked == 0 {
+	if nUnchecked == 0 && !nonnilAnn {
+		// (C10: this includes programs whose sites are annotated nilable - the annotation alone adds no diagnostic)
 		ndAssert("P01.A2.a_program_with_only_nil_checked_dereferences_is_not_reported"+g.class, !reported)
 	}
 	// C02 per line: a diagnostic may only sit on a line that holds an unchecked dereference
@@ -295,14 +356,28 @@ func (g *p01Gen) judge(src string, calleeDeref, valLine int) {
 	if valLine > 0 {
 		allowed[valLine] = true
 	}
+	for _, l := range g.flowIn {
+		allowed[l] = true
+	}
+	if g.annR == 2 || g.annA != 0 {
+		// nonnil(result 0): the callee's return statements are flow-in points; nonnil(a): the conflict is reported at the
+		// annotated parameter; nilable(a): every use of a in the callee is a possible report
+		for l := g.calleeFirst; l <= g.calleeLast; l++ {
+			allowed[l] = true
+		}
+	}
+	if g.annG == 2 {
+		allowed[g.gDeclLine] = true
+	}
 	onlyThere := true
 	for l := range r.lines() {
 		if !allowed[l] {
 			onlyThere = false
+			ndObserveInt("diagnostic_on_unexpected_line", l)
 		}
 	}
 	ndAssert("P01.A5.no_diagnostic_on_a_line_without_an_unchecked_dereference"+g.class, onlyThere)
-	if nUnchecked == 1 {
+	if nUnchecked == 1 && !nonnilAnn {
 		lines := r.lines()
 		if calleeDeref > 0 {
 			ndAssert("P01.A3.the_only_unchecked_dereference_is_reported_at_its_line"+g.class, ndImplies(g.panics, lines[calleeDeref]))
